@@ -69,3 +69,116 @@ Proof.
     rewrite IH; [reflexivity|discriminate| |simpl in *; lia].
     intros k' u' Hin. apply (Hc k' u'). right. exact Hin.
 Qed.
+
+(* ---------------- the head of a record ---------------- *)
+Lemma expect_key_tkey (k : string) r : expect_key k (tkey k ++ r) = Some r.
+Proof. unfold expect_key, tkey. cbn [app]. now rewrite str_eqb_refl'. Qed.
+
+Lemma phead_head id proc cmd params tags start finish neg exec outs tail :
+  phead (head_toks id proc cmd params tags start finish neg exec outs tail) =
+  Some ({| h_id := id; h_proc := proc; h_cmd := cmd; h_params := params; h_tags := tags; h_start := start;
+           h_finish := finish; h_neg := neg; h_exec := exec; h_outs := outs |}, tail).
+Proof.
+  unfold phead, head_toks.
+  cbn [expect bind].
+  rewrite expect_key_tkey. cbn [bind get_str expect snd fst].
+  rewrite expect_key_tkey. cbn [bind get_str expect snd fst].
+  rewrite expect_key_tkey. cbn [bind get_str expect snd fst].
+  rewrite expect_key_tkey. cbn [bind]. rewrite psmap_tsmap. cbn [bind expect snd fst].
+  rewrite expect_key_tkey. cbn [bind]. rewrite psmap_tsmap. cbn [bind expect snd fst].
+  rewrite expect_key_tkey. cbn [bind get_str expect snd fst].
+  rewrite expect_key_tkey. cbn [bind get_str expect snd fst].
+  rewrite expect_key_tkey. cbn [bind get_num expect snd fst].
+  rewrite expect_key_tkey. cbn [bind]. rewrite psmap_tsmap. cbn [bind expect snd fst].
+  rewrite expect_key_tkey. cbn [bind expect snd fst].
+  reflexivity.
+Qed.
+
+Lemma head_toks_app id proc cmd params tags start finish neg exec outs tail rest :
+  head_toks id proc cmd params tags start finish neg exec outs tail ++ rest =
+  head_toks id proc cmd params tags start finish neg exec outs (tail ++ rest).
+Proof.
+  unfold head_toks, tkey, tsmap. cbn [app].
+  repeat (rewrite <- app_assoc; cbn [app]). reflexivity.
+Qed.
+
+(* nested induction principle for records *)
+Section JrecInd.
+Variable P : jrec -> Prop.
+Hypothesis H : forall id proc cmd params tags start finish neg exec outs up,
+  Forall (fun ku => P (snd ku)) up -> P (JRec id proc cmd params tags start finish neg exec outs up).
+Fixpoint jrec_ind' (r : jrec) : P r :=
+  match r with
+  | JRec id proc cmd params tags start finish neg exec outs up =>
+    H id proc cmd params tags start finish neg exec outs up
+      ((fix go (l : list (str * jrec)) : Forall (fun ku => P (snd ku)) l :=
+          match l with [] => Forall_nil _ | x :: xs => Forall_cons _ (jrec_ind' (snd x)) (go xs) end) up)
+  end.
+End JrecInd.
+
+Lemma height_child id proc cmd params tags start finish neg exec outs up k u :
+  In (k, u) up -> height u < height (JRec id proc cmd params tags start finish neg exec outs up).
+Proof.
+  cbn [height]. intros Hin. apply Nat.lt_succ_r.
+  induction up as [|[k' u'] up IH]; [destruct Hin|]. cbn [fold_right snd].
+  destruct Hin as [E|Hin]; [injection E as <- <-; apply Nat.le_max_l|].
+  etransitivity; [apply IH; exact Hin|apply Nat.le_max_r].
+Qed.
+
+Lemma tups_length up : length up <= length (tups up ++ [TRBrace]) .
+Proof.
+  induction up as [|[k u] up IH]; [simpl; lia|].
+  destruct up as [|[k2 u2] up2].
+  - cbn [tups]. rewrite app_length. cbn [length]. lia.
+  - change (tups ((k, u) :: (k2, u2) :: up2)) with (TStr k :: TColon :: ptoks u ++ TComma :: tups ((k2, u2) :: up2)).
+    remember (tups ((k2, u2) :: up2)) as T. rewrite app_length in *. cbn [length] in *. rewrite app_length. cbn [length]. lia.
+Qed.
+
+(* writing a record as tokens and reading it back loses nothing: for every record tree, with any continuation *)
+Theorem prec_ptoks : forall r fuel rest, height r <= fuel -> prec fuel (ptoks r ++ rest) = Some (r, rest).
+Proof.
+  induction r as [id proc cmd params tags start finish neg exec outs up IH] using jrec_ind'.
+  intros fuel rest Hf. destruct fuel as [|f]; [cbn [height] in Hf; lia|].
+  rewrite ptoks_unfold, head_toks_app.
+  cbn [prec]. rewrite phead_head.
+  destruct up as [|[k u] up'].
+  - reflexivity.
+  - set (up := (k, u) :: up') in *.
+    assert (Ht : exists t r0, (tups up ++ [TRBrace; TRBrace]) ++ rest = TStr t :: r0).
+    { unfold up. destruct up' as [|[k2 u2] up2]; cbn [tups app]; eauto. }
+    destruct Ht as [t [r0 Ht]]. rewrite Ht. rewrite <- Ht.
+    assert (Hp : pups (prec f) (length ((tups up ++ [TRBrace; TRBrace]) ++ rest)) ((tups up ++ [TRBrace; TRBrace]) ++ rest) = Some (up, TRBrace :: rest)).
+    { rewrite <- app_assoc. cbn [app].
+      apply pups_tups; [discriminate| |].
+      - intros k' u' Hin rest'. rewrite Forall_forall in IH. apply (IH (k', u') Hin).
+        pose proof (height_child id proc cmd params tags start finish neg exec outs up k' u' Hin). cbn [snd]. lia.
+      - rewrite app_length. pose proof (tups_length up). rewrite app_length in H. cbn [length] in *. lia. }
+    rewrite Hp. reflexivity.
+Qed.
+
+(* ---------------- strings ---------------- *)
+Definition is_ascii7 (c : ascii) : Prop := match c with Ascii _ _ _ _ _ _ _ b7 => b7 = false end.
+
+Lemma unescape_char (b0 b1 b2 b3 b4 b5 b6 : bool) f tail :
+  unescape (S f) (escape_char (Ascii b0 b1 b2 b3 b4 b5 b6 false) ++ tail) =
+  match unescape f tail with Some (t, r) => Some (Ascii b0 b1 b2 b3 b4 b5 b6 false :: t, r) | None => None end.
+Proof. destruct b0, b1, b2, b3, b4, b5, b6; reflexivity. Qed.
+
+(* reading back an escaped string literal gives the string, for every ASCII string (control characters, quotes, back-slashes,
+   the HTML-sensitive characters included) and any continuation *)
+Theorem unescape_escape : forall s rest, Forall is_ascii7 s ->
+  unescape (S (length s)) (escape s ++ dq :: rest) = Some (s, rest).
+Proof.
+  induction s as [|c s IH]; intros rest Hs.
+  - reflexivity.
+  - inversion Hs as [|? ? Hc Hs']; subst. destruct c as [b0 b1 b2 b3 b4 b5 b6 b7]. simpl in Hc. subst b7.
+    change (escape (Ascii b0 b1 b2 b3 b4 b5 b6 false :: s)) with (escape_char (Ascii b0 b1 b2 b3 b4 b5 b6 false) ++ escape s).
+    rewrite <- app_assoc. cbn [length]. rewrite unescape_char. rewrite (IH rest Hs'). reflexivity.
+Qed.
+
+(* worked example at byte level: render, then lex and parse *)
+Definition ex_leaf := JRec (s2l "id0") [] [] [] [] (s2l "0001-01-01T00:00:00Z") (s2l "0001-01-01T00:00:00Z") true 1 [] [].
+Definition ex_rec := JRec (s2l "id1") (s2l "proc") (s2l "echo ""a<b>&"" > x\y") [(s2l "k", s2l "v"); (s2l "k2", [ascii_of_nat 10; ascii_of_nat 1])] []
+                          (s2l "2026-01-01T10:00:00.5Z") (s2l "2026-01-01T10:00:01Z") false 1234 [(s2l "o", s2l "x")] [(s2l "in.txt", ex_leaf); (s2l "b.txt", ex_leaf)].
+Theorem decode_render_example : decode (render 0 ex_rec) = Some ex_rec.
+Proof. vm_compute. reflexivity. Qed.
